@@ -12,11 +12,11 @@ go build ./... || { echo "BUILD FAILED"; git checkout -q -- .; exit 3; }
 echo "--- existing tests with patch"; go test -vet=off -count=1 $PKGS 2>&1 | grep -v "no test files" | tail -8
 T1=$(go test -vet=off -count=1 $PKGS 2>&1 | grep -c "^FAIL")
 cp "$OUT/demo_test.go" "$DEMODIR/zz_demo_test.go"
-echo "--- demo with patch (must fail)"; go test -vet=off -count=1 -run 'Demo' "./$DEMODIR" 2>&1 | tail -4
-go test -vet=off -count=1 -run 'Demo' "./$DEMODIR" >/dev/null 2>&1; WITH=$?
+echo "--- demo with patch (must fail)"; go test -vet=off -count=1 -run "${RUNPAT:-Demo}" "./$DEMODIR" 2>&1 | tail -4
+go test -vet=off -count=1 -run "${RUNPAT:-Demo}" "./$DEMODIR" >/dev/null 2>&1; WITH=$?
 git checkout -q -- .
-echo "--- demo without patch (must pass)"; go test -vet=off -count=1 -run 'Demo' "./$DEMODIR" 2>&1 | tail -3
-go test -vet=off -count=1 -run 'Demo' "./$DEMODIR" >/dev/null 2>&1; WITHOUT=$?
+echo "--- demo without patch (must pass)"; go test -vet=off -count=1 -run "${RUNPAT:-Demo}" "./$DEMODIR" 2>&1 | tail -3
+go test -vet=off -count=1 -run "${RUNPAT:-Demo}" "./$DEMODIR" >/dev/null 2>&1; WITHOUT=$?
 rm -f "$DEMODIR/zz_demo_test.go"
 echo "existing-test FAIL lines with patch: $T1; demo exit with patch: $WITH; without: $WITHOUT"
 if [ "$WITH" != 0 ] && [ "$WITHOUT" = 0 ]; then
